@@ -6,6 +6,7 @@ import (
 	"io"
 	"net/http"
 	"sync"
+	"time"
 )
 
 // Scripted in-process origin for the select slice: an http.RoundTripper that serves
@@ -63,12 +64,14 @@ type selServer struct {
 	mediaK    int
 	allParked chan struct{}
 	parkedSet bool
-	initBytes []byte
+	// time of the most recent request or answer (watchdog of the runner)
+	lastActivity time.Time
+	initBytes    []byte
 }
 
 func newSelServer(c *selCase, streams []*selStream) *selServer {
 	sv := &selServer{c: c, owner: map[string]int{}, plURL: map[string]int{}, initURL: map[string]bool{},
-		allParked: make(chan struct{})}
+		allParked: make(chan struct{}), lastActivity: time.Now()}
 	for i, s := range streams {
 		sv.st = append(sv.st, &selStreamState{s: s, gate: make(chan struct{})})
 		if _, dup := sv.plURL[s.URL]; !dup {
@@ -152,6 +155,7 @@ func (sv *selServer) RoundTrip(req *http.Request) (*http.Response, error) {
 	e := selLogEntry{url: canon, skip: skip, rng: rng}
 
 	sv.mu.Lock()
+	sv.lastActivity = time.Now()
 
 	if sv.c.Top == "multi" && canon == sv.c.MURL {
 		e.kind = "multi"
@@ -180,6 +184,7 @@ func (sv *selServer) RoundTrip(req *http.Request) (*http.Response, error) {
 				return nil, req.Context().Err()
 			}
 			sv.mu.Lock()
+			sv.lastActivity = time.Now()
 		}
 		if idx >= len(st.s.Views) {
 			if st.s.Exh == "fail" {
